@@ -1,10 +1,11 @@
 (* Model of `validate_flags` (validator.rs) and of the decision of src/rules/no_invalid_regexp.rs.
 
    The rule owns ONE EcmaRegexValidator (Es2022) per file and reuses it for every regex literal /
-   `RegExp("..", "..")` call, in source order; `check_regex` may call validate_pattern up to three times:
-       check_for_invalid_flags(flags)
-       || (!flags.is_empty() && invalid(pattern, flags.contains('u')))
-       || (invalid(pattern, true) && invalid(pattern, false))
+   `RegExp("..", ..)` call, in source order.  `check_regex(pattern, flags: Option<&str>, range)`:
+       Some(flags) (a literal, `RegExp("p")` = Some(""), `RegExp("p", "f")` = Some("f")):
+            check_for_invalid_flags(flags) || invalid(pattern, flags.contains('u'))
+       None (a second argument that is not a string literal: flags unknown):
+            invalid(pattern, true) && invalid(pattern, false)
    The model threads the validator state through these calls and from one regex to the next. *)
 From Coq Require Import List NArith ZArith Bool.
 From RecordUpdate Require Import RecordSet.
@@ -51,16 +52,16 @@ Definition both_modes (st : vst) (pat : str) : decision * vst :=
   | PvFuel => (RuleFuel, st)
   end.
 
-Definition check_regex (st : vst) (pat fl : str) : decision * vst :=
-  match validate_flags fl with
-  | Some _ => (Report, st)
-  | None =>
-      match fl with
-      | [] => both_modes st pat
-      | _ :: _ =>
+Definition check_regex (st : vst) (pat : str) (fl : option str) : decision * vst :=
+  match fl with
+  | None => both_modes st pat
+  | Some fl =>
+      match validate_flags fl with
+      | Some _ => (Report, st)
+      | None =>
           match check_pattern st pat (existsb (N.eqb 117) fl) with
           | PvInvalid _ s => (Report, s)
-          | PvValid s => both_modes s pat
+          | PvValid s => (NoReport, s)
           | PvPanic p => (RulePanic p, st)
           | PvFuel => (RuleFuel, st)
           end
@@ -68,7 +69,7 @@ Definition check_regex (st : vst) (pat fl : str) : decision * vst :=
   end.
 
 (* all regexes of one file, one validator; a panic aborts the lint of the file: later items are not reached *)
-Fixpoint check_file (st : vst) (items : list (str * str)) : list (option decision) :=
+Fixpoint check_file (st : vst) (items : list (str * option str)) : list (option decision) :=
   match items with
   | [] => []
   | (pat, fl) :: r =>
